@@ -136,6 +136,9 @@ type pObs struct {
 	Deps      map[int64]*big.Int
 	VStart    int64
 	VEnd      int64
+	DepEnd    int64
+	DepEndNs  int64
+	VEndNs    int64
 	Tally     [4]*big.Int
 	URLs      []string
 }
@@ -148,6 +151,8 @@ type obsT struct {
 	Bals     map[int64]*big.Int
 	Inactive []uint64
 	Active   []uint64
+	InactKey map[uint64][]int64 // queue key times (unix nanoseconds) per proposal id
+	ActKey   map[uint64][]int64
 	Stray    int   // deposit records of proposals that are not open
 	Parity   int64 // 1 iff the registered erc20 pair's flag differs from its initial value
 	ABT      int64 // crosschain eth AverageBlockTime
@@ -172,7 +177,7 @@ func (h *hist) fail(sig, what string) {
 
 func (h *hist) observe(res int) *obsT {
 	ctx := h.c.Ctx
-	o := &obsT{Res: res, Bals: map[int64]*big.Int{}}
+	o := &obsT{Res: res, Bals: map[int64]*big.Int{}, InactKey: map[uint64][]int64{}, ActKey: map[uint64][]int64{}}
 	gk := h.c.App.GovKeeper
 	open := map[uint64]bool{}
 	lib.Must(gk.Proposals.Walk(ctx, nil, func(id uint64, p govv1.Proposal) (bool, error) {
@@ -182,6 +187,11 @@ func (h *hist) observe(res int) *obsT {
 		if p.VotingEndTime != nil {
 			po.VEnd = rel(*p.VotingEndTime)
 			po.VStart = rel(*p.VotingStartTime)
+			po.VEndNs = p.VotingEndTime.UnixNano()
+		}
+		if p.DepositEndTime != nil {
+			po.DepEnd = rel(*p.DepositEndTime)
+			po.DepEndNs = p.DepositEndTime.UnixNano()
 		}
 		tr := p.FinalTallyResult
 		for i, s := range []string{tr.YesCount, tr.AbstainCount, tr.NoCount, tr.NoWithVetoCount} {
@@ -231,10 +241,18 @@ func (h *hist) observe(res int) *obsT {
 	o.ABT = int64(h.c.App.EthKeeper.GetParams(ctx).AverageBlockTime)
 	lib.Must(gk.InactiveProposalsQueue.Walk(ctx, nil, func(k collections.Pair[time.Time, uint64], v uint64) (bool, error) {
 		o.Inactive = append(o.Inactive, v)
+		o.InactKey[v] = append(o.InactKey[v], k.K1().UnixNano())
+		if k.K2() != v {
+			o.InactKey[v] = append(o.InactKey[v], -1)
+		}
 		return false, nil
 	}))
 	lib.Must(gk.ActiveProposalsQueue.Walk(ctx, nil, func(k collections.Pair[time.Time, uint64], v uint64) (bool, error) {
 		o.Active = append(o.Active, v)
+		o.ActKey[v] = append(o.ActKey[v], k.K1().UnixNano())
+		if k.K2() != v {
+			o.ActKey[v] = append(o.ActKey[v], -1)
+		}
 		return false, nil
 	}))
 	return o
@@ -1027,6 +1045,35 @@ func (h *hist) monitor(o *obsT, op string, opErr error) {
 		}
 		h.fail(sig, fmt.Sprintf("governance module account holds %s FX (+%s) but open proposals' deposits sum to %s", o.Gov, o.GovOther, sum))
 	}
+	// (1b) the queues hold exactly the proposals in their deposit / voting period, keyed by the
+	// proposal's own deposit end / voting end time: a stale or missing entry means the end blocker
+	// will close the wrong proposal, close it at the wrong time, or fail
+	{
+		wantIn, wantAct := map[uint64]int64{}, map[uint64]int64{}
+		for _, p := range o.Props {
+			switch p.Status {
+			case 1:
+				wantIn[p.ID] = p.DepEndNs
+			case 2:
+				wantAct[p.ID] = p.VEndNs
+			}
+		}
+		chk := func(name string, want map[uint64]int64, got map[uint64][]int64) {
+			for id, ks := range got {
+				w, ok := want[id]
+				if !ok || len(ks) != 1 || ks[0] != w {
+					h.fail("C15:queue-inconsistent", fmt.Sprintf("%s queue has entries %v for proposal %d (expected: %v at %d)", name, ks, id, ok, w))
+				}
+			}
+			for id, w := range want {
+				if len(got[id]) == 0 {
+					h.fail("C15:queue-inconsistent", fmt.Sprintf("proposal %d is missing from the %s queue (its period ends at %d)", id, name, w))
+				}
+			}
+		}
+		chk("inactive", wantIn, o.InactKey)
+		chk("active", wantAct, o.ActKey)
+	}
 	// (2) activation only at or above the applicable minimum; voting period as configured for the type
 	cust := h.customMap()
 	prevBy := map[uint64]*pObs{}
@@ -1269,6 +1316,16 @@ func (h *hist) monitorEndBlock(o *obsT, before map[string][]lib.KV, custBefore m
 			if delta[id].Sign() != 0 {
 				h.fail("C15:payout:unexpected", fmt.Sprintf("no proposal closed but account %d moved by %s", id, delta[id]))
 			}
+		}
+	}
+	// a proposal leaves its deposit / voting period through the end blocker only when that period is over
+	blockT := rel(h.c.Time)
+	for _, p := range closing {
+		if p.Status == 2 && blockT < p.VEnd {
+			h.fail("C15:voting-cut-short", fmt.Sprintf("proposal %d was in voting until %d but the end blocker at %d closed it", p.ID, p.VEnd, blockT))
+		}
+		if p.Status == 1 && blockT < p.DepEnd {
+			h.fail("C15:deposit-period-cut-short", fmt.Sprintf("proposal %d could be funded until %d but the end blocker at %d removed it", p.ID, p.DepEnd, blockT))
 		}
 	}
 	// tally: quorum configured for the type at this moment
@@ -1665,6 +1722,106 @@ func (h *hist) genCampaign() {
 	}
 }
 
+// the deposit that completes the minimum lands in the block whose time is just before / exactly
+// at / just after the end of the deposit period
+func (h *hist) genDeadlineDeposit() {
+	r := h.r
+	var cands []*pObs
+	nowT := rel(h.c.Time)
+	for _, p := range h.prev.Props {
+		if p.Status == 1 && p.DepEnd > nowT+12 {
+			cands = append(cands, p)
+		}
+	}
+	if len(cands) == 0 {
+		h.genSubmit()
+		return
+	}
+	p := cands[r.Intn(len(cands))]
+	h.deadlineDeposit(p.ID, []int64{6, 5, 5, 4, 4, 1}[r.Intn(6)], int64(10+r.Intn(6)), r.Chance(80))
+}
+
+// advance so that the next block's time is DepositEndTime - k + 5 s (k = 5: exactly the deadline),
+// deposit what is missing in that block, and run its end blocker
+func (h *hist) deadlineDeposit(pid uint64, k int64, who int64, complete bool) {
+	p := h.propObs(pid)
+	if p == nil || p.Status != 1 {
+		return
+	}
+	dt := p.DepEnd - k - rel(h.c.Time)
+	if dt < 5 {
+		return
+	}
+	h.opEndBlock(time.Duration(dt) * time.Second)
+	if h.halted {
+		return
+	}
+	p = h.propObs(pid)
+	if p == nil || p.Status != 1 {
+		return
+	}
+	missing := new(big.Int).Sub(h.minFor(p.Expedited), p.Total)
+	if !complete {
+		missing.Sub(missing, big.NewInt(1))
+	}
+	th := new(big.Int).Quo(new(big.Int).Mul(h.minFor(p.Expedited), decZ(h.params.MinDepositRatio)), e18)
+	if missing.Cmp(th) < 0 {
+		missing = th
+	}
+	if missing.Sign() <= 0 {
+		missing = big.NewInt(1)
+	}
+	if bal := h.prev.Bals[who]; bal != nil && bal.Cmp(missing) < 0 {
+		h.opMint(who, missing)
+	}
+	h.opDeposit(pid, who, missing, false)
+	h.opEndBlock(lib.BlockStep)
+}
+
+// an expedited proposal runs into the end of its (expedited) voting period, and its proposer
+// cancels it in the following block
+func (h *hist) genExpeditedEnd() {
+	r := h.r
+	var cands []*pObs
+	nowT := rel(h.c.Time)
+	for _, p := range h.prev.Props {
+		if p.Status == 2 && p.Expedited && p.VEnd > nowT+5 {
+			cands = append(cands, p)
+		}
+	}
+	if len(cands) == 0 {
+		h.opSubmit("text", int64(10+r.Intn(6)), h.minFor(true), true, false)
+		return
+	}
+	p := cands[r.Intn(len(cands))]
+	h.expeditedEnd(p.ID, r.Chance(60), r.Chance(50))
+}
+
+func (h *hist) expeditedEnd(pid uint64, cancel, sameBlockStep bool) {
+	p := h.propObs(pid)
+	if p == nil || p.Status != 2 {
+		return
+	}
+	dt := p.VEnd - rel(h.c.Time)
+	if dt < 5 {
+		dt = 5
+	}
+	h.opEndBlock(time.Duration(dt) * time.Second)
+	if h.halted {
+		return
+	}
+	if cancel {
+		if info := h.props[pid]; info != nil {
+			h.opCancel(pid, info.Proposer)
+		}
+	}
+	if sameBlockStep {
+		h.opEndBlock(lib.BlockStep)
+	} else {
+		h.opEndBlock(time.Hour)
+	}
+}
+
 func (h *hist) genCancel() {
 	r := h.r
 	open := h.openIDs(0)
@@ -1761,8 +1918,14 @@ func (h *hist) run(nops int) {
 			h.genCancel()
 		case x < 70:
 			h.genDeposit()
-		case x < 78:
+		case x < 76:
 			h.genCustom()
+		case x < 78:
+			if r.Chance(60) {
+				h.genDeadlineDeposit()
+			} else {
+				h.genExpeditedEnd()
+			}
 		case x < 80:
 			h.opMint(int64(10+r.Intn(6)), fxAmt(int64(1+r.Intn(1000))))
 		default:
